@@ -378,10 +378,17 @@ def meta_sequences(ctx, e):
         "meta:garbage-compressed": base + struct.pack("<H", 0x8000 | 8192) + blk + struct.pack("<H", 20) + b"\3" * 64,
         "meta:oversize": base + struct.pack("<H", 0xFFFF) + b"\4" * 40000,
         "meta:oversize-8193": base + struct.pack("<H", 0x8000 | 8193) + b"\5" * 40000,
+        # a short block (100 valid bytes) followed by a full one: offsets between data_used and 8192 into the
+        # block that is already loaded must be refused exactly like on a freshly loaded block
+        "meta:short-first": base + struct.pack("<H", 0x8000 | 100) + b"\6" * 100 + struct.pack("<H", 0x8000 | 8192) + blk,
     }
     seqs = [["s%d,0" % X, "r8192", "r1", "r16"], ["s%d,0" % X, "r8192", "r1", "r20000"],
             ["s%d,8191" % X, "r1", "r1", "r1", "s%d,0" % X, "r3"], ["s%d,8192" % X, "r1"], ["r5"],
-            ["s%d,0" % X, "r100", "s%d,0" % (X + 8194), "r40000", "r8"], ["s0,0", "r4"], ["s%d,0" % (X + 8194), "r0", "r1"]]
+            ["s%d,0" % X, "r100", "s%d,0" % (X + 8194), "r40000", "r8"], ["s0,0", "r4"], ["s%d,0" % (X + 8194), "r0", "r1"],
+            # seek again into the block that is cached, at / beyond its number of valid bytes, then read
+            ["s%d,0" % X, "r10", "s%d,100" % X, "r1"], ["s%d,0" % X, "r10", "s%d,5000" % X, "r8", "r200"],
+            ["s%d,99" % X, "r1", "s%d,8191" % X, "r4"], ["s%d,0" % X, "s%d,101" % X, "r8192"],
+            ["s%d,0" % X, "r10", "s%d,101" % X, "r40000"], ["s%d,0" % X, "r10", "s%d,8191" % X, "r40000", "r1"]]
     jobs = []
     for nm, img in imgs.items():
         p = os.path.join(e.dir, nm.replace(":", "_") + ".sqfs")
